@@ -30,6 +30,7 @@ deriving DecidableEq, Repr
 structure WriteEv where
   accept : Nat
   err : Bool
+  block : Bool := false     -- bridge runs only: the peer is not reading; the Write blocks until the endpoint is closed
 deriving DecidableEq, Repr
 
 /-- `waitLimiterN`: the sizes of the successive `WaitN` calls for `n` tokens. -/
@@ -79,7 +80,7 @@ def flush (st : St) : St := { st with counter := st.counter + st.batch, batch :=
 /-- The next write result; an exhausted script accepts everything. -/
 def nextWrite (ws : List WriteEv) (n : Nat) : WriteEv × List WriteEv :=
   match ws with
-  | [] => (⟨n, false⟩, [])
+  | [] => (⟨n, false, false⟩, [])
   | w :: rest => (w, rest)
 
 /-- Result of one loop iteration. -/
@@ -169,6 +170,9 @@ def Dir.step (l : Limiter) (closed : Bool) (oppDelivered : Nat) (d : Dir) : Dir 
       | [] => { d with st := flush d.st, stop := some .eof }
       | ev :: rs =>
         if oppDelivered < ev.after then d      -- the endpoint's Read is still blocked
+        else if !ev.data.isEmpty && (nextWrite d.writes ev.data.length).1.block then d
+          -- back-pressure: the Write of this iteration blocks until the bridge closes the endpoint
+          -- (then the branch `closed` above ends the direction)
         else
         match (iter l ev d.writes d.st).stop with
         | some s => { reads := rs, writes := (iter l ev d.writes d.st).ws, st := flush (iter l ev d.writes d.st).st, stop := some s }
